@@ -22,8 +22,10 @@ ASSUMPTIONS = [
     "DoubleSine parameters rho1, rho2 in [0.05, 1] (smaller values make the exponents overflow, as the property states)",
     "Rastrigin accepts any dimension >= 1, so it has no wrong-dimension case",
 ]
-FLOOR = {"samples_checked": {"quick": 1000000, "thorough": 60000000}, "maximisers_checked": {"quick": 150, "thorough": 300},
-         "purity_checks": {"quick": 100, "thorough": 200}, "wrong_dimension_checks": {"quick": 100, "thorough": 200}}
+FLOOR = {"samples_checked": {"quick": 1000000, "thorough": 30000000},
+         "maximisers_checked": {"quick": 100, "thorough": 200},
+         "purity_checks": {"quick": 60, "thorough": 120},
+         "wrong_dimension_checks": {"quick": 100, "thorough": 200}}
 WALL = {"quick": 1200, "thorough": 4 * 3600}
 HIMMEL_MAX = [(3.0, 2.0), (-2.805118086952745, 3.131312518250573), (-3.779310253377747, -3.283185991286170),
               (3.584428340330492, -1.848126526964404)]
